@@ -227,6 +227,9 @@ def uniform_dequantize(
       tensor_data, quantization_params
   )
   _is_valid_quantization_params(tensor_data, quantization_params)
+  # Subtract in a wide integer type: int8 data minus an int8 zero point wraps.
+  if np.issubdtype(np.asarray(tensor_data).dtype, np.integer):
+    tensor_data = np.asarray(tensor_data).astype(np.int64)
   return np.multiply(
       tensor_data - quantization_params.zero_point, quantization_params.scale
   )
